@@ -6,7 +6,7 @@
    any point, any order of the enabled internal rules. *)
 From Coq Require Import List ZArith Bool.
 Import ListNotations.
-From Goat Require Import Model.Demux Proofs.DemuxProofs Proofs.DemuxAlive.
+From Goat Require Import Model.Demux Proofs.DemuxProofs Proofs.DemuxAlive Proofs.DemuxLive.
 Open Scope Z_scope.
 
 (* route, exact accounting per connection instance c: what the run loop routed
@@ -132,6 +132,31 @@ Theorem C18_after_cancel_fresh : forall ls s, lrun init ls = Some s ->
 Proof. exact C18_after_cancel_fresh_l. Qed.
 Print Assumptions C18_after_cancel_fresh.
 (* (C18_ex_run below is an instance: Cancel(7) with one instance, the next envelope of key 7 opens instance 1) *)
+
+(* ---------- liveness beyond the quiescent-state form ---------- *)
+(* the internal rules terminate: a measure (3 per queued envelope, the run loop's phase, 2 per blocked call, the phase of
+   every writer goroutine) that every internal step lowers; no internal continuation of s is longer than mu s *)
+Theorem C18_terminates : forall ns s s', lrun s (map LInt ns) = Some s' -> (length ns + mu s' <= mu s)%nat.
+Proof. exact demux_terminates. Qed.
+Print Assumptions C18_terminates.
+
+(* so every state has a maximal internal continuation, ending in a quiescent state *)
+Theorem C18_maximal_exists : forall s, exists ns s', lrun s (map LInt ns) = Some s' /\ quiescent s' = true.
+Proof. exact demux_maximal_exists. Qed.
+Print Assumptions C18_maximal_exists.
+
+(* delivered: from any reachable state, at the end of ANY maximal internal continuation, while the demultiplexer is not
+   stopped: every envelope the run loop took from the shared transport for an instance that is not cancelled and whose
+   consumer is reading (a Read call on it is pending: [reading]) has been handed to that instance's Reads, in order, each
+   once; the run loop has taken everything that arrived unless it is parked in the hand-off to an instance whose consumer
+   is NOT reading (head-of-line blocking, by design) *)
+Theorem C18_delivered : forall ls s, lrun init ls = Some s ->
+  forall ns s', lrun s (map LInt ns) = Some s' -> quiescent s' = true -> stopped s' = false ->
+  (forall c, conn_done s' c = false -> reading s' c -> routed c (log s') = handed c (log s')) /\
+  (rn s' = RNRead -> inbox s' = []) /\
+  (forall c e, rn s' = RNHand c e -> ~ reading s' c).
+Proof. exact demux_delivered. Qed.
+Print Assumptions C18_delivered.
 
 (* ---------- the hypotheses are satisfiable ---------- *)
 Definition e1 := mkEnv 7 100.
